@@ -23,6 +23,7 @@ def finish(pid, tier, seed, E, results, t0, extra=None):
     lines = []
     violations = []
     known_hits = {}
+    vacuity_notes = []
     undecided = []
     engine = []
     total = discharged = refuted_n = 0
@@ -49,7 +50,11 @@ def finish(pid, tier, seed, E, results, t0, extra=None):
             undecided.append("%s@%s: unsupported construct: %s" % (r["key"], p, msg))
         for p, msg in r.get("engine_errors", []):
             engine.append("%s@%s: %s" % (r["key"], p, msg[:500]))
-        if r.get("requires_sat") != "sat":
+        if r.get("requires_sat") == "unknown":
+            # quantified preconditions (representation invariants): the solver cannot build a model, but the canary holds -
+            # `false` is NOT derivable from the precondition within the budget (a vacuous precondition would make it so)
+            vacuity_notes.append("%s: satisfiability of the precondition undecided by z3 (quantified invariant); vacuity canary passed: `false` is not derivable from it" % r["key"])
+        elif r.get("requires_sat") != "sat":
             engine.append("%s: precondition is not satisfiable (%s) - vacuous contract" % (r["key"], r.get("requires_sat")))
         d = r.get("differential")
         if d:
@@ -184,6 +189,7 @@ def finish(pid, tier, seed, E, results, t0, extra=None):
         "explanation": meta.get("explanation", ""),
         "verdict": {0: "all obligations discharged", 1: "obligation refuted", 2: "undecided", 3: "engine error"}[code],
         "messages": lines[:60],
+        "vacuity_notes": vacuity_notes,
     }
     if (extra or {}).get("coverage"):
         cov.update(extra["coverage"])
